@@ -729,6 +729,9 @@ def cadence_items(tier, seed):
         # several gradient steps per environment step; a resumed run
         out.append(_item("td3", "cccTcccc", _cfg("td3", seed, 2, 2, 0.25, logger=True, gradient_steps=2)))
         out.append(_item("ddpg", "ccUccccc", _cfg("ddpg", seed, 1, 2, 0.25, logger=True, gradient_steps=2)))
+        for name in ("nature_dqn", "ddqn", "ddqn_per"):
+            out.append(_item(name, "cccTcccccc", _cfg(name, seed, 3, 0, update_frequency=2)))
+        out.append(_item("td7", "cccTcccc", _cfg("td7", seed, 3, 2, logger=True, policy_delay=2, use_checkpoints=False, global_step=4)))
         out.append(_item("nature_dqn", "cccTcccc", _cfg("nature_dqn", seed, 3, 0, global_step=4)))
         out.append(_item("sac", "cccTcccc", _cfg("sac", seed, 3, 2, 0.25, global_step=4)))
         return out
